@@ -1,3 +1,173 @@
 import FiberModel.DriverUtil
--- stub driver for C12; replaced when the property's model lands
-def main : IO Unit := pure ()
+import FiberModel.C12.Known
+/-
+Driver for C12. Case fields after the id (see harness/cmd/c12/main.go):
+  rtc keys vals levels oldKeys oldVals | issued c2 seen2 c3 seen3
+  rtt keys vals levels oldKeys oldVals | issued st2 seen2 exp2 st3 seen3
+  dec cookies | steps allocs
+-/
+open B DriverUtil C12
+
+def optHex : Option Bytes → String
+  | none => "none"
+  | some v => toHexField v
+
+def parseOpt (s : String) : Option (Option Bytes) :=
+  if s == "none" then some none else (fromHex s).map some
+
+def parseLevels (s : String) : Option (List Nat) :=
+  if s == "-" then some [] else (s.splitOn ",").mapM fun x => x.toNat?.bind fun n => if n < 256 then some n else none
+
+def zip3 : List Bytes → List Bytes → List Nat → Option (List (Bytes × Bytes × Nat))
+  | [], [], [] => some []
+  | k :: ks, v :: vs, l :: ls => (zip3 ks vs ls).map ((k, v, l) :: ·)
+  | _, _, _ => none
+
+def zip2 : List Bytes → List Bytes → Option (List (Bytes × Bytes))
+  | [], [] => some []
+  | k :: ks, v :: vs => (zip2 ks vs).map ((k, v) :: ·)
+  | _, _ => none
+
+/-- all permutations (old-input lists have at most a few elements) -/
+def perms : List α → List (List α)
+  | [] => [[]]
+  | x :: xs => (perms xs).flatMap fun p => (List.range (p.length + 1)).map fun i => p.take i ++ [x] ++ p.drop i
+
+structure Script where
+  calls : List (Bytes × Bytes × Nat)
+  inputs : List (Bytes × Bytes)
+
+def parseScript (ks vs ls oks ovs : String) : Except String Script := do
+  let some ks := hexList ks | throw "outside-domain: keys"
+  let some vs := hexList vs | throw "outside-domain: values"
+  let some ls := parseLevels ls | throw "outside-domain: levels"
+  let some oks := hexList oks | throw "outside-domain: old keys"
+  let some ovs := hexList ovs | throw "outside-domain: old values"
+  let some calls := zip3 ks vs ls | throw "outside-domain: ragged flash lists"
+  let some inputs := zip2 oks ovs | throw "outside-domain: ragged input lists"
+  if inputs.length > 4 then throw "outside-domain: too many old inputs"
+  if (inputs.map (·.1)).eraseDups.length ≠ inputs.length then throw "outside-domain: duplicate old-input key"
+  pure ⟨calls, inputs⟩
+
+/-- model: messages after the `With` chain, then `WithInput` in the map order the implementation
+    happened to use (recovered from the issued bytes; any permutation is legal) -/
+def modelMsgs (s : Script) (issued : Option Bytes) : List Msg :=
+  let fl := s.calls.foldl (fun ms c => withMsg ms c.1 c.2.1 c.2.2) []
+  let cands := (perms s.inputs).map fun p => withInput fl p
+  match cands.find? (fun ms => issueOnWire ms = issued) with
+  | some ms => ms
+  | none => cands.headD fl
+
+def bit (b : Bool) : String := if b then "1" else "0"
+
+def handleRtc (id : String) (s : Script) (issued c2 seen2 c3 seen3 : String) : Except String Verdict := do
+  let some iss := parseOpt issued | throw "outside-domain: issued"
+  let some c2v := parseOpt c2 | throw "outside-domain: c2"
+  let some c3v := parseOpt c3 | throw "outside-domain: c3"
+  let ms := modelMsgs s iss
+  -- model of the exchange with a conforming client (accepts exactly cookie-octet values)
+  let wire := issueOnWire ms
+  let jar1 : Jar := Jar.apply wireSafe none (wire.map some)
+  let (m2, pool2, sc2) := serve Slice.empty (jar1.getD []) []
+  let jar2 := Jar.apply wireSafe jar1 sc2
+  let (m3, _, _) := serve pool2 (jar2.getD []) []
+  let modelObs := s!"{optHex wire};{optHex jar1};{renderSeen m2};{optHex jar2};{renderSeen m3}"
+  let implObs := s!"{issued};{c2};{seen2};{c3};{seen3}"
+  let flash := expectedFlash s.calls
+  let old := expectedOld s.inputs
+  let spec := specConforming flash old { issued := iss, c2 := c2v, seen2 := seen2, c3 := c3v, seen3 := seen3 }
+  let known := if Known.K1 false (flash ++ old) then some "K1" else none
+  let tags := ["rtc", if ms = [] then "nomsgs" else "msgs"] ++ (if ms ≠ [] then ["nt-rtc"] else [])
+  pure { id := id, modelObs := modelObs, implObs := implObs, spec := spec, known := known, tags := tags }
+
+def handleRtt (id : String) (s : Script) (issued st2 seen2 exp2 st3 seen3 : String) : Except String Verdict := do
+  let some iss := parseOpt issued | throw "outside-domain: issued"
+  let some st2n := st2.toNat? | throw "outside-domain: st2"
+  let some st3n := st3.toNat? | throw "outside-domain: st3"
+  let ms := modelMsgs s iss
+  let wire := issueOnWire ms
+  let implObs := s!"{issued};{st2};{seen2};{exp2};{st3};{seen3}"
+  let flash := expectedFlash s.calls
+  let old := expectedOld s.inputs
+  let spec := specTransparent flash old { issued := iss, st2 := st2n, seen2 := seen2, exp2 := exp2 == "1", st3 := st3n, seen3 := seen3 }
+  let known := if Known.K1 true (flash ++ old) then some "K1" else none
+  -- model of the exchange with a verbatim-copying client
+  let (modelObs, tags) : String × List String :=
+    match wire with
+    | none =>
+      let (m2, pool2, _) := serve Slice.empty [] []
+      let (m3, _, _) := serve pool2 [] []
+      (s!"none;200;{renderSeen m2};0;200;{renderSeen m3}", ["nocookie"])
+    | some v =>
+      if !v.all validHeaderValueByte then
+        -- fasthttp refuses the request header: 400 both times, nothing expires the cookie
+        (s!"{toHexField v};400;nohandler;0;400;nohandler", ["rejected-by-server"])
+      else if !transparentSafe v then
+        -- `;`, edge spaces or quotes: fasthttp's cookie scanner alters the value (not modelled)
+        (implObs, ["outside-model"])
+      else
+        let (m2, pool2, sc2) := serve Slice.empty v []
+        let jar2 := Jar.apply (fun _ => true) (some v) sc2
+        let (m3, _, _) := serve pool2 (jar2.getD []) []
+        (s!"{toHexField v};200;{renderSeen m2};{bit (sc2 == some none)};200;{renderSeen m3}",
+         ["delivered", "nt-rtt-delivered"])
+  pure { id := id, modelObs := modelObs, implObs := implObs, spec := spec, known := known, tags := "rtt" :: tags }
+
+structure Step where
+  status : Nat
+  seen : String
+  msgs : String
+  exp : String
+
+def parseStep (s : String) : Option Step :=
+  match s.splitOn "/" with
+  | [st, ck, ms, e] => st.toNat?.map fun n => ⟨n, ck, ms, e⟩
+  | _ => none
+
+def firstSome : List (Option String) → Option String
+  | [] => none
+  | some x :: _ => some x
+  | none :: r => firstSome r
+
+def handleDec (id : String) (cookies steps allocs : String) : Except String Verdict := do
+  let some cks := hexList cookies | throw "outside-domain: cookies"
+  if cks.any (fun c => c.contains 10 || c.contains 13) then throw "outside-domain: CR/LF inside a cookie value ends the header line"
+  let stepObs := steps.splitOn "|"
+  let allocObs := allocs.splitOn ","
+  if stepObs.length ≠ cks.length ∨ allocObs.length ≠ cks.length then throw "outside-domain: step count"
+  let some sts := stepObs.mapM parseStep | throw "outside-domain: step observation"
+  let some als := allocObs.mapM (·.toNat?) | throw "outside-domain: alloc observation"
+  -- model: thread the pooled slice through the requests
+  let rec go : Slice → List Bytes → List Step → List String × List String
+    | _, [], _ => ([], [])
+    | _, _, [] => ([], [])
+    | pool, ck :: cs, st :: ss =>
+      if !ck.all validHeaderValueByte then
+        let (o, t) := go pool cs ss
+        ("400/none/nohandler/0" :: o, "rejected-by-server" :: t)
+      else
+        -- the value fiber's cookie scanner hands to the handler: the sent bytes when they pass the
+        -- scanner unchanged, otherwise taken from the implementation (fasthttp is a parameter)
+        let seen : Bytes := if transparentSafe ck then ck else ((fromHex st.seen).getD [])
+        let r := parseAndClear pool seen
+        let (o, t) := go r.slice.release cs ss
+        let tag := if !transparentSafe ck then "seen-from-impl"
+                   else if (parse seen).isNone then "malformed" else if r.messages = [] then "wellformed-empty" else "nt-decoded"
+        (s!"200/{toHexField seen}/{renderSeen r.messages}/{bit r.expire}" :: o, tag :: t)
+  let (mo, tags) := go Slice.empty cks sts
+  let implObs := steps
+  let spec := firstSome ((cks.zip (sts.zip als)).map fun (ck, st, al) =>
+    specStep ck { status := st.status, seen := if st.seen == "none" then none else fromHex st.seen,
+                  msgs := st.msgs, exp := st.exp == "1", alloc := al })
+  pure { id := id, modelObs := "|".intercalate mo, implObs := implObs, spec := spec, tags := "dec" :: tags.eraseDups }
+
+def handleCase (f : List String) : Except String Verdict := do
+  match f with
+  | [id, "rtc", ks, vs, ls, oks, ovs, issued, c2, seen2, c3, seen3] =>
+    handleRtc id (← parseScript ks vs ls oks ovs) issued c2 seen2 c3 seen3
+  | [id, "rtt", ks, vs, ls, oks, ovs, issued, st2, seen2, exp2, st3, seen3] =>
+    handleRtt id (← parseScript ks vs ls oks ovs) issued st2 seen2 exp2 st3 seen3
+  | [id, "dec", cookies, steps, allocs] => handleDec id cookies steps allocs
+  | _ => throw s!"outside-domain: unrecognised case shape ({f.length} fields)"
+
+def main : IO Unit := run handleCase
